@@ -71,6 +71,14 @@ CHECKS = {
    "the merge engines on the legacy package within the stated domains",
    "Legacy MergePatch edges (object/array patches), CreateMergePatch pairs (float64-printable numbers), MergeMergePatches composition, Equal on object/array roots without escapes - all exhaustively over the same value families as the v5 checks.",
    T+"Domains as stated in the property."),
+ "C09": ("histx", "DESIGN.md §4 E5, §5 C09",
+   "explicit-state breadth-first search over call histories on the real code, with every sync.Pool answer and every map iteration order an explorer-owned choice; state = dump of all process-wide library state; oracle = outcome equals the solo outcome, inputs unchanged",
+   "All histories of up to 3 (thorough: more) calls from a menu of 27 exported-API calls over ONE shared set of decoded Patch values and input buffers (successes, failures, malformed inputs, both packages), built against a shim of the sync package so that which pooled decoder/encoder/scanner object a Get returns (most recent, any other, or a fresh one) and the order of every map iteration are enumerated within a deviation budget. States are merged on a generic dump of every package-level variable of the library packages (incl. every private field of every recycled object); every transition is judged: same error text / same bytes (Apply, ApplyIndent, CreateMergePatch, Equal) / same JSON value as the call made alone in a fresh process, and no shared buffer or Patch changed.",
+   T+"Closure of the state space is not reached with the exact dump (recycled objects remember their last input), so the claim is bounded by depth; the dump omits slice capacity and elements beyond len. Only exported functions are driven."),
+ "C10": ("schedx", "DESIGN.md §4 E6, §5 C10",
+   "stateless depth-first exploration of every schedule of 2-3 goroutine harnesses up to a preemption bound under a controlled scheduler on the real code (sync shim + injected statement points), plus a free-running race-detector pass over the same bodies",
+   "Every unordered pair of 9 exported-API calls (and three 3-goroutine scenarios) on ONE shared Patch and shared input slices, with cold and warm type caches, is run under a cooperative scheduler that owns every sync.Pool/Map/WaitGroup operation of the codec (configuration A) and additionally every statement boundary of the functions touching them (configuration B); all schedules within the preemption bound are enumerated (Pool.Get answers share the budget), each complete schedule judged: every call returns its solo outcome, inputs and Patch unchanged, no panic, no deadlock. Replays are deterministic (map iteration fixed at build time; the default schedule is run twice). The 'no data race' clause is decided by the Go race detector on the same bodies running freely over a mutex-guarded global pool (so goroutines really exchange pooled objects).",
+   T+"The race half is detection on executed accesses, not enumeration; it is reported separately in the evidence (race_pass). Standard-library internals are trusted. The legacy package is covered by the race half only."),
  "C20": ("cmdx", "DESIGN.md §4 E7, §5 C20",
    "exhaustive enumeration of -p argument lists (order, repetition) over a patch-file menu x stdin documents, each run as a real process of the binary built from the working tree; byte-exact comparison with the library fold and value comparison with the reference fold",
    "Every list of 0..2 (thorough 3) patch files over a 12-file menu (valid non-commuting patches, one applicable only after another, failing test, malformed, unknown op, missing file, directory, empty, empty patch, root-replacing) x 6 stdin documents is executed with both command binaries (v5 cmd, legacy cmd). Success: stdout byte-identical to folding the library's Apply over the files in command-line order, exit 0, value equal to the reference fold. Any unreadable/undecodable/inapplicable patch: empty stdout, non-empty stderr, non-zero exit.",
@@ -116,6 +124,8 @@ def main():
               ("mergex", "harness/mergex.go", "documents as states, merge patches as edges: exhaustive pairs/triples over enumerated value families"),
               ("bytex", "harness/bytex.go", "all byte strings up to a length into every []byte parameter"),
               ("scanx", "harness/scanx_hook.go", "reachability over the product of the real scanner automaton and a reference pushdown recogniser"),
+              ("histx", "harness/histx.go", "explicit-state BFS over API call histories x pool answers x map orders, state = generic dump of all package-level library state (sync shim)"),
+              ("schedx", "harness/schedx.go", "controlled scheduler + DFS with iterative preemption bounding over the real code (sync shim), and a free-running race-detector pass"),
               ("cmdx", "harness/cmdx.go", "black-box exhaustive enumeration of command lines x stdin documents on the built binaries"),
               ("decodex", "harness/decodex.go", "all single/pair member mutations of valid operations vs. a reference acceptance predicate"),
             ]
